@@ -132,7 +132,7 @@ theorem saveJson_parts {K : Consts} {ts : TypeSystem} {cass : List Cas} {ci : Na
     findAllFs K ts { includeInlinable := true } hp c.nextXid (defaultSeeds c) = .ok st ∧
     ∃ fsElems : List JFs, renderAll K ts cass st.heap (sortById st.allFs) = .ok fsElems ∧
       doc.fss = c.views.map (fun p => renderSofa hp p.2.sofa) ++ fsElems ∧
-      doc.views = c.views.map (jviewOf hp) := by
+      doc.views = c.views.map (jviewOf hp) ∧ doc.types = none := by
   unfold saveJson at h
   rw [hc] at h
   simp only [bind, Except.bind, pure, Except.pure] at h
@@ -151,7 +151,7 @@ theorem saveJson_parts {K : Consts} {ts : TypeSystem} {cass : List Cas} {ci : Na
       rw [hr] at h
       simp only at h
       cases h
-      exact ⟨rfl, fsElems, hr, rfl, rfl⟩
+      exact ⟨rfl, fsElems, hr, rfl, rfl, rfl⟩
 
 /-- ids in the heap after id assignment are positive -/
 theorem jst_ids_pos {K : Consts} {ts : TypeSystem} {c : Cas} {hp : Heap} {st : St} (hwf : RTWf c hp)
